@@ -364,6 +364,8 @@ def _interop_chunks(tier):
         if p["kind"] == "K2":
             if tier != "thorough" and ch[0] == "sweep" and ch[3] == "toa" and p["tn"] != 0:
                 continue            # quick: the 65536-value ToA sweep through trxcon at TN 0 only (legacy off and on)
+            if ch[0] == "sweep" and ch[4] == "all" and p["legacy"]:
+                continue            # thorough: all 2715648 FN through trxcon's receive path once (legacy off)
             rx.append(ch)
         elif p["kind"] == "K1" and p["ver"] == 0 and not p["legacy"]:
             tx.append(ch)
@@ -562,12 +564,13 @@ def run(ctx):
                  "produced and compared (case key = all message fields + burst pattern + legacy flag); mutated datagrams differ from "
                  "their base by construction and are counted separately, duplicates across bases not removed. Interop leg: %s; "
                  "rx = the base / sweep / burst-pattern cases of the rx v0 points with not-carried fields None (legacy off/on, TN; "
-                 "in quick the ToA sweep at TN 0 only) encoded by the toolkit and decoded by trxcon's trx_data_rx_cb, tx = the cases "
+                 "in quick the ToA sweep at TN 0 only, in thorough the all-FN sweep with legacy off only) encoded by the toolkit and decoded by trxcon's trx_data_rx_cb, tx = the cases "
                  "of the tx v0 points without legacy padding given to trx_if_handle_phyif_burst_req and parsed back by TxMsg "
                  "(interop_* counters)."
-                 % ("every tx / rx v0 / rx v1 NOPE point and every rx v1 burst point (3 base points each)" if not ctx.quick else
+                 % ("every tx / rx v0 / rx v1 NOPE point and every rx v1 burst point (3 base points each; version-1 points with "
+                    "legacy on have the same octets as with legacy off and are left out)" if not ctx.quick else
                     "every tx / rx v0 / rx v1 NOPE point (3 base points) and the rx v1 burst points with TSC == TN (base point = "
-                    "point index mod 3)",
+                    "point index mod 3); version-1 points with legacy on have the same octets as with legacy off and are left out",
                     c.get("interop_leg")))
     c["exhaustive"] = True
     ctx.assumptions += ["vlib/ref/trxd.py is the layout (written from the property statement / TRXD header description)",
